@@ -108,6 +108,9 @@ def selftest(prop: str, ctx: Ctx) -> Dict[str, Any]:
     if gen is None:
         return {"programs": 0, "disagreements_checked": 0, "mutants": []}
     muts = list(gen(ctx.prog))
+    only = os.environ.get("VERIF_MUTANT_ONLY")  # development aid: substring filter on mutant names (never set by registered commands)
+    if only:
+        muts = [m for m in muts if any(o in m[0] for o in only.split("|"))]
     baseline = {f.key for f in ctx.findings}
     jobs = [(prop, name, overlay, expect, baseline) for (name, overlay, expect) in muts]
     results = []
